@@ -535,18 +535,22 @@ class Ctx:
         if fresh_ms > 0:
             t0 = time.time()
             try:
-                s = z3.Solver()
-                s.set('timeout', min(fresh_ms, timeout_ms))
-                s.add(self.solver.assertions())
-                s.add(z3.Not(clause))
-                r = s.check()
-                self.stats['solver_calls'] = self.stats.get('solver_calls', 0) + 1
-                if r == z3.unsat:
-                    return 'unsat', None
-                if r == z3.sat:
-                    return 'sat', s.model()
-            except z3.Z3Exception:
-                pass
+                # (a) nlsat tactic (the engine's existing second opinion, tried first; only `unsat` is taken from it),
+                # (b) default one-shot solver (unsat, or sat with a complete model incl. the uninterpreted functions)
+                for mk, take_sat in ((lambda: z3.Tactic('qfnra-nlsat').solver(), False), (z3.Solver, True)):
+                    try:
+                        s = mk()
+                        s.set('timeout', min(fresh_ms, timeout_ms))
+                        s.add(self.solver.assertions())
+                        s.add(z3.Not(clause))
+                        r = s.check()
+                    except z3.Z3Exception:
+                        continue
+                    self.stats['solver_calls'] = self.stats.get('solver_calls', 0) + 1
+                    if r == z3.unsat:
+                        return 'unsat', None
+                    if r == z3.sat and take_sat:
+                        return 'sat', s.model()
             finally:
                 self.solver_time += time.time() - t0
         self.solver.set('timeout', timeout_ms)
